@@ -419,7 +419,7 @@ Definition rsa_fail (s : Z) : bool := s <? 2048.
 Definition rsa_warn (s : Z) : bool := (2048 <=? s) && (s <? 3072).
 
 Lemma size_notes_not_ecc name cert hs cat cs :
-  is_ecc name = false -> is_ecc cat = false -> starts_with t_ecdsa_prefix cat = false -> (name =? "ssh-dss")%string = false ->
+  is_ecc_host name = false -> is_ecc cat = false -> starts_with t_ecdsa_prefix cat = false -> (name =? "ssh-dss")%string = false ->
   0 < hs -> 0 <= cs ->
   size_notes name cert hs cat cs =
   if cert then
@@ -469,7 +469,7 @@ Proof.
   assert (Hm: mem hk_two2k_warning [] = false) by reflexivity.
   destruct Hc as [ -> | [ -> | -> ] ]; unfold size_notes;
     match goal with |- context [is_ecc ?c] => change (is_ecc c) with false; change (starts_with t_ecdsa_prefix c) with false end;
-    change (is_ecc ed25519_cert_name) with true; cbv iota;
+    change (is_ecc_host ed25519_cert_name) with true; cbv iota;
     unfold hk_min_good_rsa, hk_min_warn_rsa, hk_min_good_ecc, hk_min_warn_ecc;
     change (0 <? 256) with true; change (256 <? 256) with false; change (256 <? 224) with false;
     cbn [negb andb orb fst snd app];
@@ -516,9 +516,21 @@ Proof.
   exists 65537, n2040, [], []. eexists. split; [exact rsa_reply_ok_2040|]. split; [vm_compute; reflexivity|].
   split; [apply rsa_reply; exact rsa_reply_ok_2040|]. vm_compute. reflexivity.
 Qed.
-(* Ed448 keys are rated with the RSA thresholds *)
-Theorem ed448_rated_as_rsa_refuted : fst (size_notes "ssh-ed448" false 448 "" 0) <> [].
-Proof. vm_compute. discriminate. Qed.
+(* Ed448 (after fix af30915: an ECC type): no size note for any size from 256 bits, in particular for the fixed 448 *)
+Theorem ed448_no_size_note s : 256 <= s -> size_notes "ssh-ed448" false s "" 0 = ([], []).
+Proof.
+  intros Hs. unfold size_notes. change (is_ecc_host "ssh-ed448") with true. change (is_ecc "") with false.
+  change (starts_with t_ecdsa_prefix "") with false. change ("ssh-ed448" =? "ssh-dss")%string with false. cbv iota.
+  unfold hk_min_good_ecc. destruct (0 <? s) eqn:E0; [|lia]. cbn [orb negb andb].
+  destruct (s <? 256) eqn:E1; [lia|]. cbn [andb fst snd app]. reflexivity.
+Qed.
+Theorem ed448_end_to_end pk f sig : small pk -> pk <> [] -> small (ed448_key_blob pk) -> small f -> small sig ->
+  exists r, parse_reply (reply_payload (ed448_key_blob pk) f sig) = Ok r /\ hostkey_size r = 448
+            /\ size_notes "ssh-ed448" false (hostkey_size r) (r_ca_type r) (ca_size r) = ([], []).
+Proof.
+  intros Hp Hne Hb Hf Hs. destruct (ed448_size pk f sig Hp Hne Hb Hf Hs) as (r & Hr & _ & Hsz & Hc & Hcs).
+  exists r. split; [exact Hr|]. split; [exact Hsz|]. rewrite Hsz, Hc, Hcs. apply ed448_no_size_note. lia.
+Qed.
 Theorem ed25519_no_size_note : size_notes "ssh-ed25519" false 256 "" 0 = ([], []).
 Proof. reflexivity. Qed.
 
@@ -1011,4 +1023,21 @@ Proof.
   destruct (mem (hk_ca_type (h_info v)) rsa_family) eqn:Em.
   - change (negb ("RSA" =? "")%string) with true. cbn [andb]. reflexivity.
   - destruct (String.eqb_spec (hk_ca_type (h_info v)) ""); [contradiction|]. cbn [negb andb]. reflexivity.
+Qed.
+
+(* JSON: the key size is present for the RSA family and for all three RSA certificate names (fix 13b23e2) *)
+Theorem json_keysize_present name hks v :
+  mem name rsa_family = true \/ rsa_cert_type name -> assoc name hks = Some v ->
+  fst (json_key_fields name hks) = Some (hk_size (h_info v)).
+Proof.
+  intros Hn Ha. unfold json_key_fields. rewrite Ha. cbn [fst].
+  destruct Hn as [Hm | [ -> | [ -> | -> ] ] ]; [rewrite Hm; reflexivity|reflexivity|reflexivity|reflexivity].
+Qed.
+Theorem json_keysize_absent_fixed_size name hks : mem name ["ssh-ed25519"; "ssh-ed448"; ed25519_cert_name] = true ->
+  fst (json_key_fields name hks) = None.
+Proof.
+  intros Hn. unfold json_key_fields. destruct (assoc name hks); [|reflexivity]. cbn [fst mem] in *.
+  destruct (String.eqb_spec name "ssh-ed25519") as [->|]; [reflexivity|].
+  destruct (String.eqb_spec name "ssh-ed448") as [->|]; [reflexivity|].
+  destruct (String.eqb_spec name ed25519_cert_name) as [->|]; [reflexivity|discriminate].
 Qed.
